@@ -12,7 +12,7 @@ from harness.impl import base
 from tangermeme.io import extract_loci, read_meme
 
 LET = "ACGT"
-TMP = tempfile.mkdtemp(prefix="c16-", dir=os.environ.get("VERIF_SCRATCH", "/tmp"))
+TMP = base.mkd("c16-")
 
 
 # ------------------------------------------------------------------ read_meme
